@@ -832,16 +832,45 @@ def check_lock_dependency(chk, lib):
                         C.const_int(i0["i"]) is not None:
                     alias[d["id"]] = C.const_int(i0["i"])
 
+    cur_iv = [{}]       # the small integer locals of the state being transferred (loop counters over the dependencies)
+
+    def int_value(e):
+        e = C.strip_casts(e)
+        if e is None:
+            return None
+        ci = C.const_int(e)
+        if ci is not None:
+            return ci
+        if e.get("k") == "Ref" and e.get("id") in cur_iv[0]:
+            return cur_iv[0][e["id"]]
+        if e.get("k") == "Bin" and e["op"] in ("+", "-"):
+            a, b = int_value(e["a"]), int_value(e["b"])
+            if a is not None and b is not None:
+                return a + b if e["op"] == "+" else a - b
+        return None
+
     def dep_index(e):
         e = C.strip_casts(e)
         if e is not None and e.get("k") == "Idx" and C.member_name(e["a"]) == "_dependency":
-            return C.const_int(e["i"])
+            return int_value(e["i"])
         if e is not None and e.get("k") == "Ref" and e.get("id") in alias:
             return alias[e["id"]]
         return None
 
+    int_locals = set()
+    for s2 in C.walk_stmt(fn["body"]):
+        if s2.get("k") == "Decl":
+            for d in s2["d"]:
+                t = (d.get("t") or "").replace("const ", "").strip()
+                if t in ("unsigned char", "unsigned int", "unsigned long", "int", "long", "unsigned short", "short", "signed char") \
+                        and d["id"] not in alias:
+                    int_locals.add(d["id"])
+
     def pack(nn, held, bv):
-        return (tuple(sorted(nn.items())), tuple(sorted(held.items())), tuple(sorted(bv.items())))
+        bv = dict(bv)
+        for k_, v_ in cur_iv[0].items():
+            bv[("int", k_)] = v_
+        return (tuple(sorted(nn.items())), tuple(sorted(held.items())), tuple(sorted(bv.items(), key=repr)))
 
     def trylock_of(e):
         e = C.strip_casts(e)
@@ -851,8 +880,40 @@ def check_lock_dependency(chk, lib):
 
     def tr(node, st):
         nn, held, bv = dict(st[0]), dict(st[1]), dict(st[2])
+        cur_iv[0] = {k_[1]: v_ for k_, v_ in bv.items() if isinstance(k_, tuple) and k_[0] == "int"}
+        bv = {k_: v_ for k_, v_ in bv.items() if not (isinstance(k_, tuple) and k_[0] == "int")}
+        # integer locals: counters over the (two) dependencies, evaluated concretely
+        if node.kind in ("decl", "stmt") and node.ast is not None and node.ast.get("k") != "Abort":
+            if node.kind == "decl":
+                for d in node.ast["d"]:
+                    if d["id"] in int_locals:
+                        v_ = int_value(d.get("init")) if d.get("init") is not None else None
+                        if v_ is None:
+                            cur_iv[0].pop(d["id"], None)
+                        else:
+                            cur_iv[0][d["id"]] = v_
+            else:
+                for x in C.walk(node.ast):
+                    if x.get("k") == "Un" and x.get("op") in ("pre++", "post++", "pre--", "post--"):
+                        r_ = C.strip_casts(x["x"])
+                        if r_.get("k") == "Ref" and r_.get("id") in cur_iv[0]:
+                            cur_iv[0][r_["id"]] += 1 if "++" in x["op"] else -1
+                            if abs(cur_iv[0][r_["id"]]) > 8:
+                                raise AnalysisBroken("Task::lock_dependency: a counter over the dependencies runs away")
+                    elif x.get("k") == "Bin" and x.get("op") == "=" and C.strip_casts(x["a"]).get("id") in int_locals:
+                        v_ = int_value(x["b"])
+                        if v_ is None:
+                            cur_iv[0].pop(C.strip_casts(x["a"])["id"], None)
+                        else:
+                            cur_iv[0][C.strip_casts(x["a"])["id"]] = v_
         if node.kind == "branch":
             e = C.strip_casts(node.ast)
+            if e.get("k") == "Bin" and e["op"] in ("<", ">", "<=", ">=", "==", "!="):
+                a_, b_ = int_value(e["a"]), int_value(e["b"])
+                if a_ is not None and b_ is not None and C.strip_casts(e["b"]).get("k") != "Null" and \
+                        C.strip_casts(e["a"]).get("k") != "Null":
+                    t_ = {"<": a_ < b_, ">": a_ > b_, "<=": a_ <= b_, ">=": a_ >= b_, "==": a_ == b_, "!=": a_ != b_}[e["op"]]
+                    return [(t_, pack(nn, held, bv))]
             if e.get("k") == "Bin" and e["op"] in ("!=", "=="):
                 for p, q in ((e["a"], e["b"]), (e["b"], e["a"])):
                     i = dep_index(p)
@@ -1108,6 +1169,12 @@ def run(chk, prog):
     chk.floors = [(("V4" if r == "M5" else r), c, m) for r, c, m in chk.floors]
     check_task_queue(chk, lib)
     check_lock_dependency(chk, lib)
+    # Q4: the handed-out position does not stay in the live range (zone analysis shared with C12-M7)
+    from ..report import Check
+    from .c12_bounds import rule_M7
+    before_q4 = len(chk.obligations)
+    rule_M7(Check("C12", "embedded", "other"), lib, gap_chk=chk, gap_rule="Q4")
+    chk.floor("Q4", len(chk.obligations) - before_q4, 1)
     check_memory_space(chk, lib)
 
 
